@@ -239,6 +239,39 @@ def run(rep: Report, tier: str) -> None:
                 rep.add(Finding("R21.3", f"R21.3/docs-example/{ex}", "docs/data_types.rst", in_tab[0].line, "Time_Period input formats",
                                 f"documented input {ex!r} ({row[0]}) is normalised by vtl_period_normalize to {norm!r}, which is not a canonical accepted period"))
     rep.floor("documented Time_Period examples", nex, 10)
+    # every spelling of the documented families (compact / hyphenated, any zero padding, either letter case) normalises to THE canonical
+    # text of the same period: two spellings of one period must not survive as two different strings (they are compared as text later)
+    nsp = 0
+    shown_sp = 0
+    for ind in ("A", "S", "Q", "M", "W", "D"):
+        width = {"A": 0, "S": 1, "Q": 1, "M": 2, "W": 2, "D": 3}[ind]
+        nums = [1] if ind == "A" else sorted({n for n in (1, 2, 4, 9, 10, 12, 45, 52, 99, 100, 365) if n <= limits[ind]})
+        for n in nums:
+            want = "2021A" if ind == "A" else f"2021-{ind}{str(n).zfill(width)}"
+            spellings: Set[str] = set()
+            if ind == "A":
+                spellings |= {"2021", "2021A", "2021-A1", "2021a"}
+            else:
+                for w in range(len(str(n)), 4 if ind == "D" else 3):
+                    for sep in ("", "-"):
+                        for letter in (ind, ind.lower()):
+                            spellings.add(f"2021{sep}{letter}{str(n).zfill(w)}")
+                if ind == "M":
+                    spellings |= {f"2021-{n}", f"2021-{n:02d}"}
+            for sp in sorted(spellings):
+                nsp += 1
+                try:
+                    got = sqlconc.call_macro(macros, "vtl_period_normalize", sp)
+                except (sqlconc.SqlError, sqlexpr.ParseError) as e:
+                    got = f"<error {str(e)[:40]}>"
+                if got != want and shown_sp < 6:
+                    shown_sp += 1
+                    rep.add(Finding("R21.3", f"R21.3/spelling/{ind}/{sp}", "src/vtlengine/duckdb_transpiler/sql/init.sql", macros["vtl_period_normalize"].line,
+                                    "macro:vtl_period_normalize",
+                                    f"the input spelling {sp!r} of the period {want} is normalised to {got!r}: the stored text differs from the canonical one, so the same period "
+                                    f"written in two ways compares unequal and is rendered with the wrong padding"))
+    rep.instance("R21.3", "spelling-grid", nontrivial=True, sample={"spellings evaluated": nsp})
+    rep.floor("R21.3 spellings", nsp, 150)
     rep.analysed = {"render_cells": ncell, "docs_examples": nex, "formats": FORMATS}
     # ---- R21.4: no memoised renderer / parser of periods whose result depends on the (process-global) output format ----
     rep.rule("R21.4", "memoised functions on the Time_Period path return immutable values that depend only on their arguments")
